@@ -196,8 +196,13 @@ def netlist_obs(n) -> dict:
         twl = n.wire_length
     except AssertionError:
         twl = None
-    de = Rectangle.distance_epsilon()
-    ae = Rectangle.area_epsilon()
+    try:
+        de = Rectangle.distance_epsilon()
+        ae = Rectangle.area_epsilon()
+    except AssertionError:
+        # still undefined after the load: a design without any dimension defines no tolerance
+        # (the tree before "fix: a netlist without any dimension ..." set it to inf; both are nl_eps = None)
+        de = ae = math.inf
     eps = None if (math.isinf(de) or math.isinf(ae)) else [de, ae]
     return {"modules": mods, "edges": edges, "rects": [rect_obs(r) for r in n.rectangles],
             "fixed_rects": [rect_obs(r) for r in n.fixed_rectangles()], "wl": twl, "eps": eps}
